@@ -79,80 +79,12 @@ func randString(r *rand.Rand, max int, ascii bool) string {
 // maps in random key order, bytes/strings possibly non-UTF-8, links, extreme ints, floats).
 // DAG-CBOR cannot carry NaN/Inf, so floats are finite.
 func Node(r *rand.Rand, depth int) datamodel.Node {
-	k := r.Intn(9)
-	if depth <= 0 && k >= 7 {
-		k = r.Intn(7)
-	}
-	switch k {
-	case 0:
-		return basicnode.NewBool(r.Intn(2) == 0)
-	case 1:
-		switch r.Intn(5) {
-		case 0:
-			return basicnode.NewInt(math.MaxInt64)
-		case 1:
-			return basicnode.NewInt(math.MinInt64)
-		case 2:
-			return basicnode.NewInt(int64(r.Intn(48)) - 24)
-		default:
-			return basicnode.NewInt(r.Int63() - r.Int63())
-		}
-	case 2:
-		f := r.NormFloat64() * math.Pow(10, float64(r.Intn(20)-10))
-		if r.Intn(6) == 0 {
-			f = float64(r.Intn(100))
-		}
-		return basicnode.NewFloat(f)
-	case 3:
-		return basicnode.NewString(randString(r, 40, r.Intn(4) != 0))
-	case 4:
-		b := make([]byte, r.Intn(64))
-		r.Read(b)
-		return basicnode.NewBytes(b)
-	case 5:
-		return basicnode.NewLink(cidlink.Link{Cid: Cid(r)})
-	case 6:
-		return basicnode.NewString("")
-	case 7:
-		n := r.Intn(5)
-		nd, err := qp.BuildList(basicnode.Prototype.Any, int64(n), func(la datamodel.ListAssembler) {
-			for i := 0; i < n; i++ {
-				qp.ListEntry(la, qp.Node(NodeOrNull(r, depth-1)))
-			}
-		})
-		if err != nil {
-			panic(err)
-		}
-		return nd
-	default:
-		n := r.Intn(5)
-		keys := map[string]bool{}
-		var order []string
-		for len(order) < n {
-			s := randString(r, 12, r.Intn(5) != 0)
-			if !keys[s] {
-				keys[s] = true
-				order = append(order, s)
-			}
-		}
-		nd, err := qp.BuildMap(basicnode.Prototype.Any, int64(n), func(ma datamodel.MapAssembler) {
-			for _, key := range order {
-				qp.MapEntry(ma, key, qp.Node(NodeOrNull(r, depth-1)))
-			}
-		})
-		if err != nil {
-			panic(err)
-		}
-		return nd
-	}
+	return ToNode(Plain(r, depth))
 }
 
 // NodeOrNull is Node but may return null for nested positions.
 func NodeOrNull(r *rand.Rand, depth int) datamodel.Node {
-	if r.Intn(10) == 0 {
-		return datamodel.Null
-	}
-	return Node(r, depth)
+	return ToNode(PlainOrNull(r, depth))
 }
 
 // Voucher generates a typed voucher with an arbitrary IPLD body.
